@@ -98,20 +98,20 @@ func init() {
 			p.Runs = []Run{
 				e1runSP("doc-live-n2-d3-tx", "doc", 2, 3, "tx", o, 1, 600000, "live"),
 				e1runSP("list-live-n2-d3-tx", "list", 2, 3, "tx", o, 1, 600000, "live"),
-				e1run("counter-n3-d6", "counter", 3, 6, "rich", o, nil, "", 0),
+				e1run("counter-n3-d7", "counter", 3, 7, "rich", o, nil, "", 600000),
 				e1run("map-n2-d7", "map", 2, 7, "rich", o, nil, "", 600000),
-				e1run("map-n3-d5", "map", 3, 5, "", o, nil, "", 600000),
+				e1run("map-n3-d9", "map", 3, 9, "", o, nil, "", 600000),
 				e1run("list-n2-d6", "list", 2, 6, "batch", o, nil, "", 600000),
-				e1run("list-n3-d5", "list", 3, 5, "", o, nil, "", 600000),
-				e1run("list-deep-n2-d3", "list", 2, 3, "", o, nil, "deep-list", 0),
+				e1run("list-n3-d7", "list", 3, 7, "", o, nil, "", 600000),
+				e1run("list-deep-n2-d5", "list", 2, 5, "", o, nil, "deep-list", 600000),
 				e1run("doc-n2-d5", "doc", 2, 5, "", o, nil, "", 600000),
 				e1run("doc-n2-d4-order01", "doc", 2, 4, "rich", o, []int32{0, 1}, "", 600000),
 				e1run("doc-n2-d4-order10", "doc", 2, 4, "rich", o, []int32{1, 0}, "", 600000),
-				e1run("doc-n3-d4", "doc", 3, 4, "", o, nil, "", 600000),
-				e1run("doc-deep-n2-d3", "doc", 2, 3, "", o, nil, "deep-doc", 0),
+				e1run("doc-n3-d5", "doc", 3, 5, "", o, nil, "", 600000),
+				e1run("doc-deep-n2-d5", "doc", 2, 5, "", o, nil, "deep-doc", 600000),
 				e1run("list-skew-n3-d5", "list", 3, 5, "mid", o, nil, "skew", 600000),
 				e1run("docarr-skew-n3-d5", "doc", 3, 5, "arr", o, nil, "skew", 600000),
-				e1run("map-skew-n3-d5", "map", 3, 5, "", o, nil, "skew", 600000),
+				e1run("map-skew-n3-d9", "map", 3, 9, "", o, nil, "skew", 600000),
 			}
 		}
 		return p
@@ -151,20 +151,20 @@ func init() {
 				e1runSP("map-skew-n3-d5-tx", "map", 3, 5, "tx", o, 1, 600000, "skew"),
 				e1runSP("list-skew-n3-d4-tx", "list", 3, 4, "tx", o, 1, 600000, "skew"),
 				e1run("counter-bound-n3-d5", "counter", 3, 5, "wrap rich", o, nil, "bound", 0),
-				e1run("map-tomb-n3-d5", "map", 3, 5, "", o, nil, "tomb", 600000),
+				e1run("map-tomb-n3-d9", "map", 3, 9, "", o, nil, "tomb", 600000),
 				e1run("list-tomb-n3-d4", "list", 3, 4, "mid", o, nil, "tomb", 600000),
-				e1run("counter-n3-d6", "counter", 3, 6, "rich", o, nil, "", 0),
-				e1run("counter-n4-d4", "counter", 4, 4, "", o, nil, "", 0),
+				e1run("counter-n3-d7", "counter", 3, 7, "rich", o, nil, "", 600000),
+				e1run("counter-n4-d6", "counter", 4, 6, "", o, nil, "", 600000),
 				e1run("map-n2-d7", "map", 2, 7, "rich", o, nil, "", 600000),
-				e1run("map-n3-d5", "map", 3, 5, "", o, nil, "", 600000),
-				e1run("map-n4-d4", "map", 4, 4, "", o, nil, "", 600000),
+				e1run("map-n3-d9", "map", 3, 9, "", o, nil, "", 600000),
+				e1run("map-n4-d6", "map", 4, 6, "", o, nil, "", 600000),
 				e1run("list-n2-d6", "list", 2, 6, "batch", o, nil, "", 600000),
-				e1run("list-n3-d5", "list", 3, 5, "", o, nil, "", 600000),
-				e1run("list-n4-d4", "list", 4, 4, "", o, nil, "", 600000),
+				e1run("list-n3-d7", "list", 3, 7, "", o, nil, "", 600000),
+				e1run("list-n4-d5", "list", 4, 5, "", o, nil, "", 600000),
 				e1run("doc-n2-d5", "doc", 2, 5, "c02", o, nil, "", 600000),
-				e1run("doc-n3-d4", "doc", 3, 4, "c02", o, nil, "", 600000),
+				e1run("doc-n3-d5", "doc", 3, 5, "c02", o, nil, "", 600000),
 				e1run("list-skew-n3-d5", "list", 3, 5, "mid", o, nil, "skew", 600000),
-				e1run("map-skew-n3-d5", "map", 3, 5, "", o, nil, "skew", 600000),
+				e1run("map-skew-n3-d9", "map", 3, 9, "", o, nil, "skew", 600000),
 			}
 		}
 		return p
